@@ -71,6 +71,15 @@ def cases(tier, seed):
             combo = [0] * len(KNAMES)
             combo[0], combo[1], combo[2], combo[6], combo[7] = vs
             seen.add(tuple(combo))
+        # the firing budget (fire_count x fire_period) against every other key: each action kind must obey the tracepoint's own budget
+        fi, pi = KNAMES.index('fire_count'), KNAMES.index('fire_period')
+        for xi, x in enumerate(KNAMES):
+            if xi in (fi, pi):
+                continue
+            for vx, vf, vp in itertools.product(range(len(KEYS[x])), range(len(KEYS['fire_count'])), range(len(KEYS['fire_period']))):
+                combo = [0] * len(KNAMES)
+                combo[xi], combo[fi], combo[pi] = vx, vf, vp
+                seen.add(tuple(combo))
         combos = sorted(seen)
         for c in combos:
             for route in ('response', 'register'):
